@@ -1,6 +1,8 @@
 package eval
 
 import (
+	"math"
+
 	"grol.io/grol/object"
 	"grol.io/grol/simhook"
 )
@@ -23,6 +25,12 @@ func NewCache() Cache {
 	return make(Cache)
 }
 
+// -0.0 and 0.0 are equal as Go map keys but not interchangeable as arguments (1/x); don't memoize on -0.0.
+func negativeZero(o object.Object) bool {
+	f, ok := o.(object.Float)
+	return ok && f.Value == 0 && math.Signbit(f.Value)
+}
+
 func (c Cache) Get(fn string, args []object.Object) (object.Object, []byte, bool) {
 	if simhook.NoCache() {
 		return nil, nil, false
@@ -33,7 +41,7 @@ func (c Cache) Get(fn string, args []object.Object) (object.Object, []byte, bool
 	key := CacheKey{Fn: fn}
 	for i, v := range args {
 		// Can't hash functions, arrays, maps arguments (yet).
-		if !object.Hashable(v) {
+		if !object.Hashable(v) || negativeZero(v) {
 			return nil, nil, false
 		}
 		key.Args[i] = v
@@ -52,7 +60,7 @@ func (c Cache) Set(fn string, args []object.Object, result object.Object, output
 	key := CacheKey{Fn: fn}
 	for i, v := range args {
 		// Can't hash functions arguments (yet).
-		if !object.Hashable(v) {
+		if !object.Hashable(v) || negativeZero(v) {
 			return
 		}
 		key.Args[i] = v
